@@ -492,8 +492,11 @@ def gen_build_ops(g, n):
         ops.append(dict(op='container', obj=a, name=name, kind=g.choice(['list', 'list', 'tuple']), items=items))
       else:
         ops.append(dict(op='container', obj=a, name=name, kind=g.choice(['list', 'dict', 'tuple']), items=[dict(target=g.randrange(64), kind=g.choice(['node', 'var', 'static'])) for _ in range(g.randrange(0, 4))]))
-    else:
+    elif r < 0.96:
       ops.append(dict(op='del', obj=a, name=name))
+    else:
+      # edit the metadata of an existing Variable in place
+      ops.append(dict(op='setmeta', var=b, key=g.choice(['tag', 'note']), value=g.choice(['x', 'y', 'frozen', None])))
   return ops
 
 
@@ -542,6 +545,18 @@ def apply_build_op(h: Heap, op, res=None):
       res.probe('pytree_container')
   elif k == 'del':
     h.del_attr(h.node(op['obj']), op['name'])
+  elif k == 'setmeta':
+    if h.vars:
+      i = h.vars[op['var'] % len(h.vars)]
+      if op['value'] is None:
+        if op['key'] in h.model[i].meta:
+          delattr(h.real[i], op['key'])
+          del h.model[i].meta[op['key']]
+      else:
+        setattr(h.real[i], op['key'], op['value'])
+        h.model[i].meta[op['key']] = op['value']
+      if res is not None:
+        res.probe('metadata_edited_in_place')
   else:
     return False
   return True
